@@ -216,8 +216,8 @@ fn run_history(h: &Hist) -> (Hist, Vec<Obs>) {
     let exe = std::env::current_exe().expect("exe");
     let tdir = std::env::temp_dir().join(format!("tvh-c25-{}-{}.d", std::process::id(), n));
     let _ = std::fs::create_dir_all(&tdir);
-    let cmd = format!("ulimit -v 1500000; exec '{}' child '{}'", exe.display(), f.display());
-    let outp = std::process::Command::new("sh").arg("-c").arg(&cmd).env("TMPDIR", &tdir)
+    let cmd = format!("ulimit -v 400000; exec '{}' child '{}'", exe.display(), f.display());
+    let outp = std::process::Command::new("sh").arg("-c").arg(&cmd).env("TMPDIR", &tdir).env("RUST_BACKTRACE", "0")
         .stderr(std::process::Stdio::null()).output();
     let _ = std::fs::remove_file(&f);
     let _ = std::fs::remove_dir_all(&tdir);
@@ -593,7 +593,7 @@ fn push_hist(w: &mut CaseWriter, h: &Hist, kind: &str) {
 
 fn gen(a: &Args) {
     let mut rng = Rng::new(a.seed);
-    let mut w = CaseWriter::new(&a.out, "C25", "Corr.C25", 40);
+    let mut w = CaseWriter::new(&a.out, "C25", "Corr.C25", 120);
     if let Some(lines) = a.replay_lines() {
         for l in lines {
             if let Some(h) = parse_hist(&l) { push_hist(&mut w, &h, "replay"); }
@@ -603,7 +603,7 @@ fn gen(a: &Args) {
         return;
     }
     for h in fixed_hists() { push_hist(&mut w, &h, "fixed"); }
-    let (n, max_ops) = if a.thorough() { (4000usize, 300usize) } else { (260usize, 40usize) };
+    let (n, max_ops) = if a.thorough() { (2500usize, 300usize) } else { (260usize, 40usize) };
     for i in 0..n {
         let (kind, name) = match i % 20 {
             0..=8 => (Kind::InsertOnly, "insert_only"),
@@ -612,14 +612,15 @@ fn gen(a: &Args) {
             15 => (Kind::Blind, "blind_insert"),
             16 | 17 => (Kind::Malformed, "malformed"),
             18 => (Kind::Tiny, "tiny"),
-            _ => (Kind::Overflow, "half_page_overflow"),
+            // past half a page the model makes no prediction and a child process is needed: keep it rare
+            _ => if !a.thorough() || i % 100 == 19 { (Kind::Overflow, "half_page_overflow") } else { (Kind::InsertOnly, "insert_only") },
         };
         // in the thorough tier a tenth of the histories are long
         let mo = if a.thorough() { if i % 10 == 0 { max_ops } else { 60 } } else { max_ops };
         let h = gen_hist(&mut rng, kind, mo);
         push_hist(&mut w, &h, name);
     }
-    for (c, kind) in gen_sq(&mut rng, if a.thorough() { 6000 } else { 400 }) {
+    for (c, kind) in gen_sq(&mut rng, if a.thorough() { 3000 } else { 400 }) {
         let (t, nt) = sq_run(&c);
         w.push(t, sq_line(&c), nt, kind);
     }
